@@ -340,13 +340,19 @@ func (t FunctionBlock) serializeTo(writer io.StringWriter) {
 // writing chunks as Unicode string
 // by calling the provided `write` callback.
 func serializeTo(nodes []Token, writer io.StringWriter) {
-	var previousType string
+	var (
+		previousType string
+		previous     Token
+	)
 	for _, node := range nodes {
 		serializationType := node.Kind().String()
 		if literal, ok := node.(Literal); ok {
 			serializationType = literal.Value
 		}
 		if badPairs[[2]string{previousType, serializationType}] {
+			writer.WriteString("/**/")
+		} else if ident, ok := previous.(Ident); ok && serializationType == "+" && (ident.Value == "u" || ident.Value == "U") {
+			// "u+" followed by an hexadecimal digit or "?" would start an unicode-range
 			writer.WriteString("/**/")
 		} else if previousType == "\\" {
 			whitespace, ok := node.(Whitespace)
@@ -357,6 +363,7 @@ func serializeTo(nodes []Token, writer io.StringWriter) {
 		}
 		node.serializeTo(writer)
 		previousType = serializationType
+		previous = node
 	}
 }
 
